@@ -323,6 +323,19 @@ def dep2_alphabet(w, w0):
     return nums + H.link_letters(w)
 
 
+def emptying_alphabet(w, w0):
+    """Every list attribute of every reachable object set to the empty list (states in which a step has no job, a
+    journey no step ...: the next letters start from there)."""
+    out = []
+    for n in W.reachable(w):
+        if w["objects"][n]["cls"] == "System":
+            continue
+        for a, v in w["objects"][n]["attrs"].items():
+            if v[0] == "list" and v[1]:
+                out.append(["list", n, a, []])
+    return out
+
+
 def make_alphabet(fam, mode_by_depth):
     w0 = W.family(fam)
 
@@ -333,6 +346,10 @@ def make_alphabet(fam, mode_by_depth):
             return pairs_alphabet(w, w0)
         if mode == "dep2":
             return dep2_alphabet(w, w0)
+        if mode == "emptying":
+            return emptying_alphabet(w, w0)
+        if mode == "links+lists":
+            return H.link_letters(w) + H.list_letters(w)
         return full_alphabet(w, w0) if mode == "full" else core_alphabet(w, w0)
     return alphabet_of
 
@@ -346,6 +363,9 @@ CAMPAIGNS = {
         {"world": "W3", "schedules": ("default", 0), "depth": 1, "modes": {1: "full"}},
         {"world": "W2", "schedules": ("default", 0), "depth": 2, "modes": {1: "dep2", 2: "dep2"}},
         {"world": "W3", "schedules": ("default", 0), "depth": 2, "modes": {1: "dep2", 2: "dep2"}, "max": 400},
+        # from every state in which one list has been emptied: every link / list letter
+        {"world": "W2", "schedules": ("default", 0), "depth": 2, "modes": {1: "emptying", 2: "links+lists"}},
+        {"world": "W1", "schedules": ("default", 0), "depth": 2, "modes": {1: "emptying", 2: "links+lists"}},
     ],
     "thorough": [
         {"world": "W1", "schedules": ("dev", 1), "depth": 1, "modes": {1: "full"}},
@@ -363,6 +383,8 @@ CAMPAIGNS = {
         {"world": "W1", "schedules": ("default", 0), "depth": 3, "modes": {1: "dep2", 2: "dep2", 3: "dep2"}},
         {"world": "W2", "schedules": ("default", 0), "depth": 3, "modes": {1: "dep2", 2: "dep2", 3: "dep2"}},
         {"world": "W2", "schedules": ("default", 0), "depth": 2, "modes": {1: "dep2", 2: "dep2"}, "merge": False},
+        {"world": "W3", "schedules": ("default", 0), "depth": 2, "modes": {1: "emptying", 2: "full"}},
+        {"world": "W1c", "schedules": ("default", 0), "depth": 2, "modes": {1: "emptying", 2: "core"}},
     ],
 }
 
